@@ -34,8 +34,27 @@ def properties(tree: ast.Module) -> dict[tuple[str, str], ast.AST | None]:
         for f in c.body:
             if isinstance(f, ast.FunctionDef) and any(ast.unparse(d) in ('property', 'builtins.property') for d in f.decorator_list):
                 body = [s for s in f.body if not (isinstance(s, ast.Expr) and isinstance(s.value, ast.Constant))]
-                out[(c.name, f.name)] = body[0].value if len(body) == 1 and isinstance(body[0], ast.Return) else None
+                out[(c.name, f.name)] = _straight_line(body)
     return out
+
+
+def _straight_line(body: list[ast.stmt]) -> ast.AST | None:
+    """`x = e1; y = e2(x); return e3(x, y)` -> e3 with the locals inlined; None for any other shape."""
+    env: dict[str, ast.AST] = {}
+
+    class Inline(ast.NodeTransformer):
+        def visit_Name(self, node: ast.Name) -> ast.AST:
+            return env.get(node.id, node) if isinstance(node.ctx, ast.Load) else node
+    for st in body[:-1]:
+        if isinstance(st, ast.Assign) and len(st.targets) == 1 and isinstance(st.targets[0], ast.Name):
+            env[st.targets[0].id] = Inline().visit(ast.parse(ast.unparse(st.value), mode='eval').body)
+        elif isinstance(st, ast.AnnAssign) and isinstance(st.target, ast.Name) and st.value is not None:
+            env[st.target.id] = Inline().visit(ast.parse(ast.unparse(st.value), mode='eval').body)
+        else:
+            return None
+    if not body or not isinstance(body[-1], ast.Return) or body[-1].value is None:
+        return None
+    return Inline().visit(ast.parse(ast.unparse(body[-1].value), mode='eval').body)
 
 
 def int_lit(e: ast.AST, where: str) -> int:
@@ -50,12 +69,22 @@ def part_of(e: ast.AST, where: str) -> tuple[int, int | None]:
         return 0, None
     if isinstance(e, ast.BinOp) and isinstance(e.op, ast.RShift) and ast.unparse(e.left) == 'self.value':
         return int_lit(e.right, where), None
+    if isinstance(e, ast.BinOp) and isinstance(e.op, ast.FloorDiv) and isinstance(e.right, ast.Constant):
+        k = int_lit(e.right, where)
+        s, m = part_of(e.left, where)
+        if k > 0 and k & (k - 1) == 0 and m is None:       # x // 2^n == x >> n
+            return s + k.bit_length() - 1, None
+    if isinstance(e, ast.BinOp) and isinstance(e.op, ast.RShift) and isinstance(e.right, ast.Constant):
+        s, m = part_of(e.left, where)
+        if m is None:
+            return s + int_lit(e.right, where), None
     if isinstance(e, ast.BinOp) and isinstance(e.op, ast.BitAnd):
         for a, b in ((e.left, e.right), (e.right, e.left)):
             if isinstance(b, ast.Constant):
                 s, m = part_of(a, where)
                 k = int_lit(b, where)
                 return s, k if m is None else (m & k)
+        raise TranslateError(f'{where}: mask is not an integer literal: {ast.unparse(e)[:60]}')
     if isinstance(e, ast.BinOp) and isinstance(e.op, ast.Mod) and isinstance(e.right, ast.Constant):
         k = int_lit(e.right, where)
         if k > 0 and k & (k - 1) == 0:          # x % 2^n == x & (2^n - 1) for the non-negative values of a Flag
@@ -143,9 +172,52 @@ def generate(tree: ast.Module) -> tuple[str, dict]:
         'Definition helper_splits : list (string * list fpart * list N) := [' + '; '.join(
             f'({D.coq_s(o)}, [{"; ".join(cpart(p) for p in sorted(ps, key=lambda q: (q[0], -1 if q[1] is None else q[1])))}], '
             f'[{"; ".join(str(s) + "%N" for s in rshifts[o])}])' for o, ps in sorted(parts.items())) + '].'])
-    side = {'helper_property_uses': uses, 'helper_splits': {o: {'parts': sorted([list(p) for p in ps], key=str), 'reader_shifts': rshifts[o]}
+    bc = bool_codes(tree, cls)
+    text += '\n' + '\n'.join([
+        '(* booleans stored as one of two codes: class, attribute, code written for True, for False, code the reader compares with *)',
+        'Definition bool_codes : list (string * string * N * N * N) := [' + '; '.join(
+            f'({D.coq_s(c)}, {D.coq_s(f)}, {a}%N, {b}%N, {r}%N)' for c, f, a, b, r in bc) + '].'])
+    side = {'bool_codes': [list(x) for x in bc], 'helper_property_uses': uses, 'helper_splits': {o: {'parts': sorted([list(p) for p in ps], key=str), 'reader_shifts': rshifts[o]}
                                                                for o, ps in parts.items()}}
     return text, side
+
+
+def bool_codes(tree: ast.Module, cls: D.Classes) -> list[tuple[str, str, int, int, int]]:
+    """Booleans stored as one of two integer codes: writer `code = A if obj.attr else B` (a local that a pack call uses),
+    reader `Class(..., code_var == C, ...)` at the position of `attr`.  -> (class, attr, A, B, C)."""
+    bsp_cls = next(n for n in tree.body if isinstance(n, ast.ClassDef) and n.name == 'BSP')
+    writers: dict[str, list[tuple[int, int, str]]] = {}
+    for fn in bsp_cls.body:
+        if not (isinstance(fn, ast.FunctionDef) and 'write' in fn.name):
+            continue
+        for n in ast.walk(fn):
+            if isinstance(n, ast.Assign) and len(n.targets) == 1 and isinstance(n.targets[0], ast.Name) and isinstance(n.value, ast.IfExp):
+                v = n.value
+                test, neg = v.test, False
+                if isinstance(test, ast.UnaryOp) and isinstance(test.op, ast.Not):
+                    test, neg = test.operand, True
+                if isinstance(test, ast.Attribute) and isinstance(test.value, ast.Name) and isinstance(v.body, ast.Constant) \
+                        and isinstance(v.orelse, ast.Constant) and type(v.body.value) is int and type(v.orelse.value) is int:
+                    a, b = (v.orelse.value, v.body.value) if neg else (v.body.value, v.orelse.value)
+                    writers.setdefault(test.attr, []).append((a, b, fn.name))
+    out: list[tuple[str, str, int, int, int]] = []
+    for fn in bsp_cls.body:
+        if not (isinstance(fn, ast.FunctionDef) and 'read' in fn.name):
+            continue
+        for c in ast.walk(fn):
+            if isinstance(c, ast.Call) and isinstance(c.func, ast.Name) and c.func.id in cls.raw and cls.is_attrs(c.func.id):
+                fields = [f for f, _, _ in cls.fields(c.func.id)]
+                named = list(zip(fields, c.args)) + [(k.arg, k.value) for k in c.keywords if k.arg]
+                for f, a in named:
+                    if isinstance(a, ast.Compare) and len(a.ops) == 1 and isinstance(a.ops[0], (ast.Eq, ast.NotEq)) and isinstance(a.left, ast.Name) \
+                            and isinstance(a.comparators[0], ast.Constant) and type(a.comparators[0].value) is int:
+                        if f not in writers:
+                            raise TranslateError(f'{fn.name}: line {a.lineno}: `{f}` is read as `{ast.unparse(a)}` but no writer encodes it as a code')
+                        for wa, wb, _w in writers[f]:
+                            rc = a.comparators[0].value
+                            # `code != C` reads the boolean inverted: the true-code is then the writer's false-code
+                            out.append((c.func.id, f, wa, wb, rc) if isinstance(a.ops[0], ast.Eq) else (c.func.id, f, wb, wa, rc))
+    return out
 
 
 def _ancestors(cls: D.Classes, c: str) -> list[str]:
